@@ -15,7 +15,10 @@ ASSUMPTIONS = [
     'Column._vars holds operator.attrgetter objects, assumed to read the property of that name (getters_ok); '
     'Column.__getitem__ is tied for integer keys (the slice branch subscripts a tuple with a slice object, outside the '
     'fragment: covered by the correspondence only); Cursor.executemany calls self.execute, a state-changing call on the '
-    'receiver the fragment cannot express: covered by the correspondence only (C09 histories)',
+    'receiver the fragment cannot express: C10_source_executemany ties the SHAPE of its source (parse once, then '
+    'self.execute(query, p) for every p in order) and proves that running the translated execute as that loop prescribes is '
+    'the model\'s fold; Cursor.__iter__: builtins.iter is an opaque callable (the callable-iterator protocol is the model\'s '
+    'NewIter/Next, validated by the correspondence)',
 ]
 
 SIZES = [None, -2, -1, 0, 1, 2, 3, 5]
